@@ -1100,7 +1100,11 @@ func (z *Decimal) SetFloat(x *big.Float) *Decimal {
 		// the power of two needs more digits than z: rounded to z.prec
 		// digits only, it pushed the result up to two units away from
 		// the correctly rounded value and spoiled exact conversions
-		t := new(Decimal).SetPrec(uint(z.prec) + _DW)
+		// When the mantissa carries a power of five (10**104 = 5**104 *
+		// 2**104) the product has a short expansion although 2**exp2 is
+		// long: such a power needs up to a digit per three mantissa bits
+		// more to be exact.
+		t := new(Decimal).SetPrec(uint(z.prec) + _DW + uint(math.Ceil(float64(fprec)*log10_2)))
 		if exp2 < 0 {
 			if exp2 < MinExp {
 				// handle exponent overflow. Can only happen if exp2 < 0
